@@ -1,1 +1,587 @@
-// harness module (child of the mirrored module)
+// Contracts and proof harnesses for contracts/interchain-token-service/src/contract.rs.
+use super::*;
+use crate::abi::verif::{
+    any_error, get_message_type_contract, hub_decode_contract, hub_encode_contract, spec_encoding, symbolic_message, words_of_hub, words_of_message, DECODED, ENCODED, TYPE_OF,
+};
+use crate::types::{DeployInterchainToken as TDeploy, InterchainTransfer as TTransfer};
+use soroban_sdk::shim::{self, inst, pers, temp, Wordy, Words, OWNER_KEY};
+use soroban_sdk::{Symbol, Val, Vec};
+
+type S = InterchainTokenService;
+
+fn me(env: &Env) -> Address {
+    env.current_contract_address()
+}
+fn sym_token() -> Token {
+    Token { address: Address::symbolic(), amount: kani::any() }
+}
+fn cfg_key(id: &BytesN<32>) -> DataKey {
+    DataKey::TokenIdConfigKey(*id)
+}
+fn axelar(env: &Env) -> String {
+    String::from_str(env, "axelar")
+}
+fn no_storage_change() -> bool {
+    inst().n_changed() == 0 && pers().n_changed() == 0 && temp().n_changed() == 0 && shim::n_wasm_updates() == 0
+}
+
+// ---- spec terms of the id derivations (C11), written independently of the repository's helpers
+fn spec_chain_name_hash(env: &Env) -> Option<BytesN<32>> {
+    let name: Option<String> = inst().pre(&DataKey::ChainName);
+    name.map(|n| env.crypto().keccak256(&n.to_xdr(env)).into())
+}
+fn spec_deploy_salt(env: &Env, deployer: &Address, salt: &BytesN<32>) -> Option<BytesN<32>> {
+    spec_chain_name_hash(env).map(|h| env.crypto().keccak256(&("interchain-token-salt", h, deployer.clone(), *salt).to_xdr(env)).into())
+}
+fn spec_canonical_salt(env: &Env, token: &Address) -> Option<BytesN<32>> {
+    spec_chain_name_hash(env).map(|h| env.crypto().keccak256(&("canonical-token-salt", h, token.clone()).to_xdr(env)).into())
+}
+fn spec_token_id(env: &Env, salt: &BytesN<32>) -> BytesN<32> {
+    env.crypto().keccak256(&("its-interchain-token-id", Address::zero(env), *salt).to_xdr(env)).into()
+}
+
+// ------------------------------------------------------------------------------------------------
+// contract stubs of the service's own helpers
+// ------------------------------------------------------------------------------------------------
+pub static mut PGC_RESULT_OK: bool = false;
+/// contract of `pay_gas_and_call_contract` (proved by c05_pay_gas_and_call_contract): records its
+/// arguments; Ok only for a trusted destination.
+pub fn pay_gas_and_call_contract_stub(_env: &Env, caller: Address, destination_chain: String, message: Message, gas_token: Token) -> Result<(), ContractError> {
+    let mut w = Words::new();
+    caller.to_words(&mut w);
+    destination_chain.to_words(&mut w);
+    gas_token.to_words(&mut w);
+    shim::log_internal("pay_gas_and_call_contract", w);
+    shim::log_internal("pay_gas_and_call_contract.message", words_of_message(&message));
+    let trusted = pers().post_has(&DataKey::TrustedChain(destination_chain));
+    if trusted && kani::any() {
+        unsafe { PGC_RESULT_OK = true };
+        Ok(())
+    } else {
+        Err(any_error())
+    }
+}
+fn pgc_call_is(i: usize, caller: &Address, chain: &String, message: &Message, gas_token: &Token) -> bool {
+    let mut w = Words::new();
+    caller.to_words(&mut w);
+    chain.to_words(&mut w);
+    gas_token.to_words(&mut w);
+    let c0 = shim::call(i);
+    let c1 = shim::call(i + 1);
+    shim::n_calls() >= i + 2
+        && c0.callee == 0
+        && c0.func == soroban_sdk::fnv("pay_gas_and_call_contract")
+        && c0.args == w
+        && c1.callee == 0
+        && c1.func == soroban_sdk::fnv("pay_gas_and_call_contract.message")
+        && c1.args == words_of_message(message)
+}
+
+pub static mut DRT_RESULT: Option<Result<BytesN<32>, ContractError>> = None;
+pub fn deploy_remote_token_stub(_env: &Env, caller: Address, deploy_salt: BytesN<32>, destination_chain: String, gas_token: Token) -> Result<BytesN<32>, ContractError> {
+    shim::log_internal("deploy_remote_token", Words::of(&(caller, deploy_salt, destination_chain, gas_token)));
+    let r = if kani::any() { Ok(BytesN::symbolic()) } else { Err(any_error()) };
+    unsafe { DRT_RESULT = Some(r) };
+    r
+}
+
+// ------------------------------------------------------------------------------------------------
+// C05  pay_gas_and_call_contract, interchain_transfer
+// ------------------------------------------------------------------------------------------------
+#[kani::proof]
+#[kani::stub(crate::types::HubMessage::abi_encode, hub_encode_contract)]
+fn c05_pay_gas_and_call_contract() {
+    let env = Env::default();
+    let _h = shim::fresh_host();
+    let caller = Address::symbolic();
+    let chain = String::symbolic();
+    let message = symbolic_message();
+    let gas_token = sym_token();
+
+    let r = S::pay_gas_and_call_contract(&env, caller.clone(), chain.clone(), message.clone(), gas_token.clone());
+
+    let trusted = pers().pre_has(&DataKey::TrustedChain(chain.clone()));
+    let gateway: Option<Address> = inst().pre(&DataKey::Gateway);
+    let gas: Option<Address> = inst().pre(&DataKey::GasService);
+    let hub: Option<String> = inst().pre(&DataKey::ItsHubAddress);
+    match r {
+        Ok(()) => {
+            assert!(trusted, "OBL C05.only_trusted_destination: a message is announced only toward a currently trusted destination chain");
+            let expected = HubMessage::SendToHub { destination_chain: chain.clone(), message: message.clone() };
+            assert!(unsafe { ENCODED } == Some(words_of_hub(&expected)), "OBL C05.payload_is_send_to_hub_of_message: the payload is the encoding of SendToHub{this destination, exactly this message}");
+            let payload = spec_encoding(&expected);
+            assert!(
+                matches!((&gateway, &gas, &hub), (Some(gw), Some(gs), Some(hb)) if shim::n_calls() == 2
+                    && shim::call_is(0, gs, "pay_gas", &(me(&env), axelar(&env), hb.clone(), payload.clone(), caller.clone(), gas_token.clone(), Bytes::new(&env)))
+                    && shim::call_is(1, gw, "call_contract", &(me(&env), axelar(&env), hb.clone(), payload.clone()))),
+                "OBL C05.gas_then_call_same_payload: exactly pay_gas(service, hub chain, hub address, payload, payer = caller, stated gas token) then call_contract(service, hub chain, hub address, the same payload), and no other call"
+            );
+            assert!(no_storage_change() && shim::n_events() == 0 && shim::n_deploys() == 0, "OBL C05.routing_frame");
+            kani::cover!(matches!(message, Message::InterchainTransfer(_)), "COVER pgc ok transfer");
+            kani::cover!(matches!(message, Message::DeployInterchainToken(_)), "COVER pgc ok deploy");
+        }
+        Err(_) => {
+            assert!(shim::no_effects(), "OBL C05.refused_routing_moves_nothing: no gas is charged and nothing is sent for an untrusted destination or an unencodable message");
+            kani::cover!(!trusted, "COVER pgc err untrusted");
+        }
+    }
+}
+
+#[kani::proof]
+#[kani::stub(InterchainTokenService::pay_gas_and_call_contract, pay_gas_and_call_contract_stub)]
+fn c05_interchain_transfer() {
+    let env = Env::default();
+    let _h = shim::fresh_host();
+    let caller = Address::symbolic();
+    let token_id: BytesN<32> = BytesN::symbolic();
+    let chain = String::symbolic();
+    let dest = Bytes::symbolic();
+    let amount: i128 = kani::any();
+    let data: Option<Bytes> = Option::<Bytes>::symbolic();
+    let gas_token = sym_token();
+
+    let r = S::interchain_transfer(&env, caller.clone(), token_id, chain.clone(), dest.clone(), amount, data.clone(), gas_token.clone());
+
+    let cfg: Option<TokenIdConfigValue> = pers().pre(&cfg_key(&token_id));
+    if r.is_ok() {
+        assert!(amount > 0, "OBL C05.transfer_needs_positive_amount");
+        assert!(shim::authed(&caller), "OBL C07.interchain_transfer_needs_caller: tokens are taken from `caller` only under the caller's authorisation");
+        assert!(
+            matches!(&cfg, Some(c) if match c.token_manager_type {
+                TokenManagerType::NativeInterchainToken => shim::call_is(0, &c.token_address, "burn", &(caller.clone(), amount)),
+                TokenManagerType::LockUnlock => shim::call_is(0, &c.token_address, "transfer", &(caller.clone(), me(&env), amount)),
+            }),
+            "OBL C05.takes_exact_amount_of_registered_token: exactly the stated amount is taken from the sender on the token registered under this id — burned (service-deployed) or moved into custody (canonical)"
+        );
+        assert!(shim::auth_seq(&caller) < shim::call_seq(0), "OBL C07.interchain_transfer_auth_before_take");
+        assert!(
+            shim::n_events() == 1 && shim::event_is(0, &(Symbol::new(&env, "interchain_transfer_sent"), token_id, caller.clone(), chain.clone(), dest.clone(), amount), &(data.clone(),)),
+            "OBL C05.sent_event_exact"
+        );
+        let message = Message::InterchainTransfer(TTransfer { token_id, source_address: caller.clone().to_xdr(&env), destination_address: dest.clone(), amount, data: data.clone() });
+        assert!(
+            shim::n_calls() == 3 && pgc_call_is(1, &caller, &chain, &message, &gas_token) && unsafe { PGC_RESULT_OK },
+            "OBL C05.announces_exactly_what_was_taken: the hub is told exactly this token id, amount, sender (xdr of the caller), destination and data, with the stated gas payment charged to the caller; one take, one announcement"
+        );
+        assert!(no_storage_change() && shim::n_deploys() == 0, "OBL C05.transfer_frame");
+        kani::cover!(matches!(&cfg, Some(c) if c.token_manager_type == TokenManagerType::LockUnlock), "COVER its transfer lock");
+        kani::cover!(matches!(&cfg, Some(c) if c.token_manager_type == TokenManagerType::NativeInterchainToken), "COVER its transfer burn");
+    } else {
+        kani::cover!(amount <= 0, "COVER its transfer err amount");
+        kani::cover!(cfg.is_none() && amount > 0, "COVER its transfer err unknown token");
+    }
+}
+
+// ------------------------------------------------------------------------------------------------
+// C04  execute (inbound)
+// ------------------------------------------------------------------------------------------------
+#[kani::proof]
+#[kani::stub(crate::abi::get_message_type, get_message_type_contract)]
+#[kani::stub(crate::types::HubMessage::abi_decode, hub_decode_contract)]
+fn c04_execute() {
+    let env = Env::default();
+    let _h = shim::fresh_host();
+    let (sc, mid, sa) = (String::symbolic(), String::symbolic(), String::symbolic());
+    let payload = Bytes::symbolic();
+
+    <S as AxelarExecutableInterface>::execute(env.clone(), sc.clone(), mid.clone(), sa.clone(), payload.clone());
+    shim::no_dangling_abstract_content();
+
+    let gateway: Option<Address> = inst().pre(&DataKey::Gateway);
+    let hub: Option<String> = inst().pre(&DataKey::ItsHubAddress);
+    let ph: BytesN<32> = env.crypto().keccak256(&payload).into();
+    // --- the gateway approval is consumed first
+    assert!(
+        matches!(&gateway, Some(g) if shim::n_calls() >= 1 && shim::call_is(0, g, "validate_message", &(me(&env), sc.clone(), mid.clone(), sa.clone(), ph)) && shim::call_ret::<bool>(0)),
+        "OBL C04.approval_consumed: the configured gateway consumed an approval of exactly (service, source chain, message id, source address, keccak256(payload))"
+    );
+    assert!(
+        shim::call_seq(0) < pers().first_write_seq() && (shim::n_events() == 0 || shim::call_seq(0) < shim::event_seq(0)) && (shim::n_deploys() == 0 || shim::call_seq(0) < shim::deploy(0).seq),
+        "OBL C04.validated_before_effects"
+    );
+    assert!(sc == axelar(&env), "OBL C04.from_hub_chain: the message comes from the hub chain");
+    assert!(hub == Some(sa.clone()), "OBL C04.hub_address_checked: the message comes from the configured hub address");
+    assert!(matches!(unsafe { TYPE_OF }, Some((id, 4)) if id == payload.id), "OBL C04.receive_from_hub_only");
+    let decoded = unsafe { DECODED.clone() };
+    match decoded {
+        Some(HubMessage::ReceiveFromHub { source_chain: origin, message }) => {
+            assert!(pers().pre_has(&DataKey::TrustedChain(origin.clone())), "OBL C04.trusted_origin: the wrapped message names a currently trusted origin chain");
+            match message {
+                Message::InterchainTransfer(t) => {
+                    let cfg: Option<TokenIdConfigValue> = pers().pre(&cfg_key(&t.token_id));
+                    assert!(cfg.is_some(), "OBL C04.transfer_needs_registered_token");
+                    let c = cfg.unwrap_or(TokenIdConfigValue { token_address: Address(0), token_manager_type: TokenManagerType::LockUnlock });
+                    let c1 = shim::call(1);
+                    let recipient = Address(c1.args.w[if c.token_manager_type == TokenManagerType::LockUnlock { 1 } else { 0 }]);
+                    assert!(recipient.clone().to_xdr(&env) == t.destination_address, "OBL C04.recipient_is_decoded_destination: the credited address is the one whose XDR is the message's destination field");
+                    assert!(
+                        match c.token_manager_type {
+                            TokenManagerType::NativeInterchainToken => shim::call_is(1, &c.token_address, "mint", &(recipient.clone(), t.amount)),
+                            TokenManagerType::LockUnlock => shim::call_is(1, &c.token_address, "transfer", &(me(&env), recipient.clone(), t.amount)),
+                        },
+                        "OBL C05.inbound_credits_exact_amount: exactly the announced amount is minted (service-deployed token) or released from custody (canonical token) to the recipient, on the registered token"
+                    );
+                    assert!(
+                        shim::n_events() == 1
+                            && shim::event_is(0, &(Symbol::new(&env, "interchain_transfer_received"), origin.clone(), t.token_id, t.source_address.clone(), recipient.clone(), t.amount), &(t.data.clone(),)),
+                        "OBL C04.received_event_exact"
+                    );
+                    assert!(
+                        match &t.data {
+                            None => shim::n_calls() == 2,
+                            Some(d) => shim::n_calls() == 3 && shim::call_is(2, &recipient, "execute_with_interchain_token", &(origin.clone(), mid.clone(), t.source_address.clone(), d.clone(), t.token_id, c.token_address.clone(), t.amount)),
+                        },
+                        "OBL C04.one_effect_only: one credit; the recipient's callback only when data is present, with the same values; nothing else"
+                    );
+                    assert!(no_storage_change() && shim::n_deploys() == 0, "OBL C04.transfer_arm_frame: no registration changes");
+                    kani::cover!(t.data.is_some(), "COVER c04 transfer with data");
+                    kani::cover!(t.data.is_none() && c.token_manager_type == TokenManagerType::LockUnlock, "COVER c04 transfer unlock");
+                }
+                Message::DeployInterchainToken(d) => {
+                    assert!(!pers().pre_has(&cfg_key(&d.token_id)), "OBL C11.remote_deploy_needs_free_id: a remote deploy message for a taken id fails");
+                    assert!(!d.name.is_empty() && !d.symbol.is_empty(), "OBL C04.deploy_needs_valid_metadata");
+                    let wasm: Option<BytesN<32>> = inst().pre(&DataKey::InterchainTokenWasmHash);
+                    let dep = shim::deploy(0);
+                    let minter_word_present = dep.args.w[1] != 0;
+                    let minter_addr = Address(dep.args.w[2]);
+                    assert!(
+                        match &d.minter {
+                            None => !minter_word_present,
+                            Some(mb) => minter_word_present && minter_addr.clone().to_xdr(&env) == *mb,
+                        },
+                        "OBL C11.remote_deploy_minter_is_decoded: the designated minter is the address whose XDR is the message's minter field (none if absent)"
+                    );
+                    let minter = if minter_word_present { Some(minter_addr) } else { None };
+                    let md = TokenMetadata { name: d.name.clone(), symbol: d.symbol.clone(), decimal: d.decimals as u32 };
+                    assert!(
+                        shim::n_deploys() == 1
+                            && dep.deployer == me(&env).0
+                            && Some(BytesN::<32>([dep.salt[0], dep.salt[1], dep.salt[2], dep.salt[3], 0, 0, 0, 0])) == Some(d.token_id)
+                            && matches!(wasm, Some(w) if w.0[0] == dep.wasm[0] && w.0[1] == dep.wasm[1] && w.0[2] == dep.wasm[2] && w.0[3] == dep.wasm[3])
+                            && dep.args == Words::of(&(me(&env), minter.clone(), d.token_id, md.clone())),
+                        "OBL C11.remote_deploy_exact: one token deployed by the service at the address derived from (service, token id), from the configured code, constructed with (owner = service, designated minter, this id, the requested metadata)"
+                    );
+                    assert!(
+                        pers().post::<_, TokenIdConfigValue>(&cfg_key(&d.token_id)) == Some(TokenIdConfigValue { token_address: Address(dep.address), token_manager_type: TokenManagerType::NativeInterchainToken })
+                            && pers().changed_only(&[Words::of(&cfg_key(&d.token_id))])
+                            && inst().n_changed() == 0,
+                        "OBL C11.remote_deploy_registers_once: the id is registered to the deployed address as a service-deployed token; nothing else is written"
+                    );
+                    assert!(shim::n_calls() == 1, "OBL C04.deploy_arm_moves_no_funds");
+                    assert!(
+                        shim::n_events() == 1 && shim::event_is(0, &(Symbol::new(&env, "interchain_token_deployed"), d.token_id, Address(dep.address), d.name.clone(), d.symbol.clone(), d.decimals as u32, minter.clone()), &Vec::<Val>::new(&env)),
+                        "OBL C04.deployed_event_exact"
+                    );
+                    kani::cover!(d.minter.is_some(), "COVER c04 deploy with minter");
+                    kani::cover!(d.minter.is_none(), "COVER c04 deploy without minter");
+                }
+            }
+        }
+        _ => {
+            assert!(false, "OBL C04.decoded_receive_from_hub: execute returns only for a payload that decodes as ReceiveFromHub");
+        }
+    }
+}
+
+// ------------------------------------------------------------------------------------------------
+// C11  id derivations, local deployment, canonical registration
+// ------------------------------------------------------------------------------------------------
+#[kani::proof]
+fn c11_id_derivations() {
+    let env = Env::default();
+    let _h = shim::fresh_host();
+    let (deployer, token) = (Address::symbolic(), Address::symbolic());
+    let salt: BytesN<32> = BytesN::symbolic();
+
+    let s1 = S::interchain_token_deploy_salt(&env, deployer.clone(), salt);
+    let id = S::interchain_token_id(&env, deployer.clone(), salt);
+    let s2 = S::canonical_token_deploy_salt(&env, token.clone());
+
+    assert!(Some(s1) == spec_deploy_salt(&env, &deployer, &salt), "OBL C11.deploy_salt_binds_chain_deployer_salt: keccak(xdr((\"interchain-token-salt\", keccak(xdr(chain name)), deployer, salt)))");
+    assert!(Some(s2) == spec_canonical_salt(&env, &token), "OBL C11.canonical_salt_binds_chain_and_token: keccak(xdr((\"canonical-token-salt\", keccak(xdr(chain name)), token address)))");
+    let expect_id: BytesN<32> = env.crypto().keccak256(&("its-interchain-token-id", deployer.clone(), salt).to_xdr(&env)).into();
+    assert!(id == expect_id, "OBL C11.token_id_binds_sender_salt: keccak(xdr((\"its-interchain-token-id\", sender, salt)))");
+    assert!(s1 != s2 && s1 != id && s2 != id, "OBL C11.domain_separated: the three derivations never collide (distinct prefixes)");
+    assert!(shim::no_effects() && shim::n_auth() == 0, "OBL C11.derivations_pure");
+    kani::cover!(true, "COVER c11 ids");
+}
+
+#[kani::proof]
+fn c11_deploy_interchain_token() {
+    let env = Env::default();
+    let _h = shim::fresh_host();
+    let caller = Address::symbolic();
+    let salt: BytesN<32> = BytesN::symbolic();
+    let md = TokenMetadata { decimal: kani::any(), name: String::symbolic(), symbol: String::symbolic() };
+    let supply: i128 = kani::any();
+    let minter: Option<Address> = Option::<Address>::symbolic();
+
+    let r = S::deploy_interchain_token(&env, caller.clone(), salt, md.clone(), supply, minter.clone());
+
+    if let Ok(id) = r {
+        assert!(shim::authed(&caller), "OBL C07.deploy_needs_caller: a token is deployed under `caller`'s (deployer, salt) name only with the caller's authorisation");
+        let ds = spec_deploy_salt(&env, &caller, &salt);
+        assert!(matches!(ds, Some(s) if id == spec_token_id(&env, &s)), "OBL C11.local_deploy_id_deterministic: the id is the domain-separated function of (chain name, caller, salt)");
+        let wasm: Option<BytesN<32>> = inst().pre(&DataKey::InterchainTokenWasmHash);
+        let dep = shim::deploy(0);
+        let initial_minter = if supply > 0 { Some(me(&env)) } else { minter.clone() };
+        assert!(
+            shim::n_deploys() == 1
+                && dep.deployer == me(&env).0
+                && BytesN::<32>([dep.salt[0], dep.salt[1], dep.salt[2], dep.salt[3], 0, 0, 0, 0]) == id
+                && matches!(wasm, Some(w) if w.0[0] == dep.wasm[0] && w.0[1] == dep.wasm[1] && w.0[2] == dep.wasm[2] && w.0[3] == dep.wasm[3])
+                && dep.args == Words::of(&(me(&env), initial_minter.clone(), id, md.clone())),
+            "OBL C11.local_deploy_exact: one token deployed by the service at the address derived from (service, id), owned by the service, reporting this id and the requested metadata"
+        );
+        let token = Address(dep.address);
+        assert!(!(supply <= 0 && minter == Some(me(&env))), "OBL C11.service_not_designated_minter");
+        assert!(
+            if supply > 0 { shim::n_calls() >= 1 && shim::call_is(0, &token, "mint", &(caller.clone(), supply)) } else { shim::n_calls() == 0 },
+            "OBL C11.initial_supply_to_deployer: the initial supply, if any, is credited to the deployer — and nothing is minted otherwise"
+        );
+        // --- the service must stay able to mint for inbound transfers
+        let mut revoked = false;
+        let mut i = 0;
+        while i < shim::LCAP {
+            if i < shim::n_calls() && shim::call_is(i, &token, "remove_minter", &(me(&env),)) {
+                revoked = true;
+            }
+            i += 1;
+        }
+        assert!(!revoked, "OBL C11.its_remains_minter: the service never revokes its own minting right on a token it deployed");
+        assert!(
+            match (&minter, supply > 0) {
+                (Some(m), true) => shim::call_is(shim::n_calls() - 1, &token, "add_minter", &(m.clone(),)),
+                _ => true,
+            },
+            "OBL C11.designated_minter_gets_role"
+        );
+        assert!(
+            pers().post::<_, TokenIdConfigValue>(&cfg_key(&id)) == Some(TokenIdConfigValue { token_address: token.clone(), token_manager_type: TokenManagerType::NativeInterchainToken })
+                && pers().changed_only(&[Words::of(&cfg_key(&id))])
+                && inst().n_changed() == 0,
+            "OBL C11.local_deploy_registers_once"
+        );
+        assert!(
+            shim::n_events() == 1 && shim::event_is(0, &(Symbol::new(&env, "interchain_token_deployed"), id, token.clone(), md.name.clone(), md.symbol.clone(), md.decimal, initial_minter.clone()), &Vec::<Val>::new(&env)),
+            "OBL C11.local_deploy_event"
+        );
+        kani::cover!(supply > 0 && minter.is_some(), "COVER c11 deploy supply and minter");
+        kani::cover!(supply > 0 && minter.is_none(), "COVER c11 deploy supply only");
+        kani::cover!(supply <= 0 && minter.is_some(), "COVER c11 deploy minter only");
+        kani::cover!(supply <= 0 && minter.is_none(), "COVER c11 deploy neither");
+    }
+}
+
+#[kani::proof]
+fn c11_register_canonical_token() {
+    let env = Env::default();
+    let _h = shim::fresh_host();
+    let token = Address::symbolic();
+
+    let r = S::register_canonical_token(&env, token.clone());
+
+    let cs = spec_canonical_salt(&env, &token);
+    match r {
+        Ok(id) => {
+            assert!(matches!(cs, Some(s) if id == spec_token_id(&env, &s)), "OBL C11.canonical_id_deterministic: the id is the domain-separated function of (chain name, token address)");
+            assert!(!pers().pre_has(&cfg_key(&id)), "OBL C11.register_needs_free_id: re-registering a taken id fails");
+            assert!(
+                pers().post::<_, TokenIdConfigValue>(&cfg_key(&id)) == Some(TokenIdConfigValue { token_address: token.clone(), token_manager_type: TokenManagerType::LockUnlock })
+                    && pers().changed_only(&[Words::of(&cfg_key(&id))])
+                    && inst().n_changed() == 0,
+                "OBL C11.register_writes_once: the id maps to exactly this token as a lock/unlock token; nothing else is written"
+            );
+            assert!(shim::n_calls() == 0 && shim::n_deploys() == 0, "OBL C11.register_moves_nothing");
+            assert!(
+                matches!(cs, Some(s) if shim::n_events() == 1 && shim::event_is(0, &(Symbol::new(&env, "interchain_token_id_claimed"), id, Address::zero(&env), s), &Vec::<Val>::new(&env))),
+                "OBL C11.register_event"
+            );
+            kani::cover!(true, "COVER c11 register ok");
+        }
+        Err(e) => {
+            assert!(e == ContractError::TokenAlreadyRegistered && matches!(cs, Some(s) if pers().pre_has(&cfg_key(&spec_token_id(&env, &s)))), "OBL C11.register_err_only_if_taken");
+            assert!(shim::no_effects(), "OBL C11.refused_register_no_effect");
+            kani::cover!(true, "COVER c11 register err");
+        }
+    }
+}
+
+#[kani::proof]
+fn c11_registry_views() {
+    let env = Env::default();
+    let _h = shim::fresh_host();
+    let id: BytesN<32> = BytesN::symbolic();
+    let a = S::token_address(&env, id);
+    let t = S::token_manager_type(&env, id);
+    let cfg: Option<TokenIdConfigValue> = pers().pre(&cfg_key(&id));
+    assert!(cfg == Some(TokenIdConfigValue { token_address: a, token_manager_type: t }), "OBL C11.views_agree_with_registry");
+    assert!(shim::no_effects() && shim::n_auth() == 0, "OBL C11.registry_views_pure");
+    kani::cover!(true, "COVER c11 views");
+}
+
+// ------------------------------------------------------------------------------------------------
+// C18  remote deployments
+// ------------------------------------------------------------------------------------------------
+#[kani::proof]
+#[kani::stub(InterchainTokenService::deploy_remote_token, deploy_remote_token_stub)]
+fn c18_deploy_remote_interchain_token() {
+    let env = Env::default();
+    let _h = shim::fresh_host();
+    let caller = Address::symbolic();
+    let salt: BytesN<32> = BytesN::symbolic();
+    let chain = String::symbolic();
+    let gas_token = sym_token();
+
+    let r = S::deploy_remote_interchain_token(&env, caller.clone(), salt, chain.clone(), gas_token.clone());
+
+    assert!(shim::authed(&caller), "OBL C07.remote_deploy_needs_caller: a remote deployment under `caller`'s (deployer, salt) name needs the caller's authorisation");
+    let ds = spec_deploy_salt(&env, &caller, &salt);
+    assert!(
+        matches!(ds, Some(s) if shim::n_calls() == 1 && shim::internal_call_is(0, "deploy_remote_token", &(caller.clone(), s, chain.clone(), gas_token.clone()))),
+        "OBL C18.salt_bound_to_caller: the token is looked up under the id derived from the caller's own (deployer, salt) pair; the caller is the gas payer"
+    );
+    assert!(Some(r) == unsafe { DRT_RESULT }, "OBL C18.result_passed_through");
+    assert!(shim::auth_seq(&caller) < shim::call_seq(0), "OBL C18.auth_first");
+    kani::cover!(r.is_ok(), "COVER c18 remote interchain ok");
+}
+
+#[kani::proof]
+#[kani::stub(InterchainTokenService::deploy_remote_token, deploy_remote_token_stub)]
+fn c18_deploy_remote_canonical_token() {
+    let env = Env::default();
+    let _h = shim::fresh_host();
+    let (token, spender) = (Address::symbolic(), Address::symbolic());
+    let chain = String::symbolic();
+    let gas_token = sym_token();
+
+    let r = S::deploy_remote_canonical_token(&env, token.clone(), chain.clone(), spender.clone(), gas_token.clone());
+
+    let cs = spec_canonical_salt(&env, &token);
+    assert!(
+        matches!(cs, Some(s) if shim::n_calls() == 1 && shim::internal_call_is(0, "deploy_remote_token", &(spender.clone(), s, chain.clone(), gas_token.clone()))),
+        "OBL C18.canonical_salt_from_token_address: the token is looked up under the id derived from the canonical token's address; `spender` is the gas payer"
+    );
+    assert!(Some(r) == unsafe { DRT_RESULT }, "OBL C18.canonical_result_passed_through");
+    kani::cover!(r.is_ok(), "COVER c18 remote canonical ok");
+}
+
+#[kani::proof]
+#[kani::stub(InterchainTokenService::pay_gas_and_call_contract, pay_gas_and_call_contract_stub)]
+fn c18_deploy_remote_token() {
+    let env = Env::default();
+    let _h = shim::fresh_host();
+    let caller = Address::symbolic();
+    let deploy_salt: BytesN<32> = BytesN::symbolic();
+    let chain = String::symbolic();
+    let gas_token = sym_token();
+
+    let r = S::deploy_remote_token(&env, caller.clone(), deploy_salt, chain.clone(), gas_token.clone());
+
+    if let Ok(id) = r {
+        assert!(id == spec_token_id(&env, &deploy_salt), "OBL C18.id_from_salt");
+        let cfg: Option<TokenIdConfigValue> = pers().pre(&cfg_key(&id));
+        assert!(cfg.is_some(), "OBL C18.only_registered_tokens: a remote deployment is requested only for a token already registered under that id");
+        let c = cfg.unwrap_or(TokenIdConfigValue { token_address: Address(0), token_manager_type: TokenManagerType::LockUnlock });
+        assert!(
+            shim::call_is(0, &c.token_address, "name", &()) && shim::call_is(1, &c.token_address, "decimals", &()) && shim::call_is(2, &c.token_address, "symbol", &()),
+            "OBL C18.metadata_is_the_tokens_own: name, decimals and symbol are asked of the registered token itself"
+        );
+        let (name, decimals, symbol): (String, u32, String) = (shim::call_ret(0), shim::call_ret(1), shim::call_ret(2));
+        assert!(decimals <= 255 && !name.is_empty() && !symbol.is_empty(), "OBL C18.refuses_unrepresentable_metadata: empty name or symbol, or more than 255 decimals");
+        let message = Message::DeployInterchainToken(TDeploy { token_id: id, name: name.clone(), symbol: symbol.clone(), decimals: decimals as u8, minter: None });
+        assert!(
+            shim::n_calls() == 5 && pgc_call_is(3, &caller, &chain, &message, &gas_token) && unsafe { PGC_RESULT_OK },
+            "OBL C18.announces_true_id_and_metadata: a deploy message with exactly this id, the token's actual name, symbol and decimals, and no minter, toward the requested chain, with the stated gas payment from the payer"
+        );
+        assert!(
+            shim::n_events() == 1 && shim::event_is(0, &(Symbol::new(&env, "token_deployment_started"), id, c.token_address.clone(), chain.clone(), name, symbol, decimals, None::<Address>), &Vec::<Val>::new(&env)),
+            "OBL C18.deployment_started_event"
+        );
+        assert!(no_storage_change() && shim::n_deploys() == 0, "OBL C18.moves_no_funds_and_writes_nothing: no token transfer, burn or mint by the service; only the gas payment (inside pay_gas_and_call_contract)");
+        kani::cover!(true, "COVER c18 remote token ok");
+    }
+}
+
+#[kani::proof]
+fn c18_validate_token_metadata() {
+    let md = TokenMetadata { decimal: kani::any(), name: String::symbolic(), symbol: String::symbolic() };
+    let r = validate_token_metadata(&md);
+    assert!(r.is_ok() == (md.decimal <= 255 && !md.name.is_empty() && !md.symbol.is_empty()), "OBL C18.metadata_validation_exact: accepted exactly when decimals <= 255 and name and symbol are non-empty");
+    kani::cover!(r.is_ok(), "COVER md ok");
+    kani::cover!(r.is_err(), "COVER md err");
+}
+
+// ------------------------------------------------------------------------------------------------
+// C06  trusted chains, roles, constructor
+// ------------------------------------------------------------------------------------------------
+#[kani::proof]
+fn c06_its_set_trusted_chain() {
+    let env = Env::default();
+    let _h = shim::fresh_host();
+    let chain = String::symbolic();
+    let r = S::set_trusted_chain(&env, chain.clone());
+    let owner: Option<Address> = inst().pre(&OWNER_KEY);
+    let k = DataKey::TrustedChain(chain.clone());
+    let was = pers().pre_has(&k);
+    assert!(matches!(&owner, Some(o) if shim::authed(o)), "OBL C06.set_trusted_chain_needs_owner");
+    match r {
+        Ok(()) => {
+            assert!(!was && pers().post_has(&k), "OBL C06.set_trusted_absent_to_present");
+            assert!(pers().changed_only(&[Words::of(&k)]) && inst().n_changed() == 0 && shim::n_calls() == 0, "OBL C06.set_trusted_frame");
+            assert!(matches!(&owner, Some(o) if shim::auth_seq(o) < pers().first_write_seq()), "OBL C06.set_trusted_auth_first");
+            assert!(shim::n_events() == 1 && shim::event_is(0, &(Symbol::new(&env, "trusted_chain_set"), chain.clone()), &Vec::<Val>::new(&env)), "OBL C06.set_trusted_event");
+            kani::cover!(true, "COVER set trusted ok");
+        }
+        Err(e) => {
+            assert!(was && e == ContractError::TrustedChainAlreadySet && shim::no_effects(), "OBL C06.set_trusted_err_no_effect");
+            kani::cover!(true, "COVER set trusted err");
+        }
+    }
+}
+
+#[kani::proof]
+fn c06_its_remove_trusted_chain() {
+    let env = Env::default();
+    let _h = shim::fresh_host();
+    let chain = String::symbolic();
+    let r = S::remove_trusted_chain(&env, chain.clone());
+    let owner: Option<Address> = inst().pre(&OWNER_KEY);
+    let k = DataKey::TrustedChain(chain.clone());
+    let was = pers().pre_has(&k);
+    assert!(matches!(&owner, Some(o) if shim::authed(o)), "OBL C06.remove_trusted_chain_needs_owner");
+    match r {
+        Ok(()) => {
+            assert!(was && !pers().post_has(&k), "OBL C06.remove_trusted_present_to_absent");
+            assert!(pers().changed_only(&[Words::of(&k)]) && inst().n_changed() == 0 && shim::n_calls() == 0, "OBL C06.remove_trusted_frame");
+            assert!(matches!(&owner, Some(o) if shim::auth_seq(o) < pers().first_write_seq()), "OBL C06.remove_trusted_auth_first");
+            assert!(shim::n_events() == 1 && shim::event_is(0, &(Symbol::new(&env, "trusted_chain_removed"), chain.clone()), &Vec::<Val>::new(&env)), "OBL C06.remove_trusted_event");
+            kani::cover!(true, "COVER remove trusted ok");
+        }
+        Err(e) => {
+            assert!(!was && e == ContractError::TrustedChainNotSet && shim::no_effects(), "OBL C06.remove_trusted_err_no_effect");
+            kani::cover!(true, "COVER remove trusted err");
+        }
+    }
+}
+
+#[kani::proof]
+fn c06_its_constructor_and_views() {
+    let env = Env::default();
+    let _h = shim::fresh_host();
+    let (owner, gateway, gas) = (Address::symbolic(), Address::symbolic(), Address::symbolic());
+    let (hub, name) = (String::symbolic(), String::symbolic());
+    let wasm: BytesN<32> = BytesN::symbolic();
+    S::__constructor(env.clone(), owner.clone(), gateway.clone(), gas.clone(), hub.clone(), name.clone(), wasm);
+    assert!(inst().post::<_, Address>(&OWNER_KEY) == Some(owner), "OBL C06.its_ctor_owner");
+    assert!(
+        <S as AxelarExecutableInterface>::gateway(&env) == gateway && S::gas_service(&env) == gas && S::its_hub_address(&env) == hub && S::chain_name(&env) == name && S::interchain_token_wasm_hash(&env) == wasm,
+        "OBL C06.its_ctor_settings_and_views"
+    );
+    assert!(S::its_hub_chain_name(&env) == axelar(&env), "OBL C04.hub_chain_name_constant");
+    assert!(pers().n_changed() == 0 && shim::n_calls() == 0 && shim::n_events() == 0, "OBL C06.its_ctor_frame");
+    kani::cover!(true, "COVER its ctor");
+}
+
+soroban_sdk::harness_ownable!(InterchainTokenService, c06_its_transfer_ownership);
+soroban_sdk::harness_upgradable!(InterchainTokenService, ContractError, c15_its_upgrade, c15_its_migrate);
